@@ -185,10 +185,11 @@ class Translator:
                     f = dict(k)
                     f['type'] = {'qualType': st(k['type'].get('qualType', ''))}
                     inner.append(f)
-            if pat[0].get('bases'):
-                raise ExtractError('template pattern with base classes: ' + short)
             syn = {'id': 'syn:%s<%s>' % (short, ','.join(args)), 'kind': 'ClassTemplateSpecializationDecl', 'name': short,
                    'completeDefinition': True, 'inner': inner, '_parent': n}
+            if pat[0].get('bases'):
+                # base classes of the pattern (with the template parameters substituted) become base sub-objects
+                syn['bases'] = [dict(b, type={'qualType': st(b['type']['qualType'])}) for b in pat[0]['bases']]
             return syn
         return None
 
@@ -649,6 +650,10 @@ class Translator:
                 oct_ = None
             if oct_ == 'c_textptr':
                 return 'TEXT_AT(%s)' % x       # read through a position of the ghost text buffer (bounds obligation in the macro)
+            if oct_ and oct_.startswith('struct ') and not oct_.rstrip().endswith('*') and i[0]['type']['qualType'].rstrip().endswith('*'):
+                # a pointer member that the unit maps onto the pointed-to object itself (@typemap T * = struct ...; never null)
+                self.cur.stubs.add('pointer member modelled as the pointed-to object (never null; aliasing between objects not modelled)')
+                return x
             return '(*%s)' % x
         if op == '&':
             if x.startswith('(*') and x.endswith(')') and self._balanced(x[2:-1]):
@@ -1138,8 +1143,8 @@ class Translator:
             if name == 'operator<<' and fam in ('std::basic_ostream', 'std::ostream', 'std::basic_ofstream', 'std::basic_fstream',
                                                 'std::basic_ostringstream', 'std::basic_stringstream') and len(args) == 2:
                 return self.stream_put(n, args)
-            if name in ('operator*', 'operator->') and fam in ('std::unique_ptr', 'unique_ptr') and len(args) == 1:
-                self.cur.stubs.add('std::unique_ptr modelled as the owned object (never null)')
+            if name in ('operator*', 'operator->') and fam in ('std::unique_ptr', 'unique_ptr', 'std::shared_ptr', 'shared_ptr') and len(args) == 1:
+                self.cur.stubs.add('std::unique_ptr / std::shared_ptr modelled as the pointed-to object (never null; sharing between objects is not modelled)')
                 return 'UPTR_VAL(%s)' % A(0)
             if name in ('operator*', 'operator->') and fam in ('std::optional', 'optional') and len(args) == 1:
                 return 'OPT_VAL(%s)' % A(0)
